@@ -1,5 +1,7 @@
 package reftable
 
+import "math/rand"
+
 // This file is NOT part of hanwen/reftable.  The verification driver drops it
 // into its scratch copy of the working tree; it only adds exported names for
 // a few unexported items that the checks drive directly.
@@ -34,3 +36,15 @@ func (st *Stack) VerifTableNames() []string {
 
 // VerifTableSizes is the size vector auto-compaction looks at.
 func (st *Stack) VerifTableSizes() []uint64 { return st.tableSizesForCompaction() }
+
+// VerifReseed makes table-name suffixes reproducible.
+func VerifReseed(seed int64) { randomRandom = rand.New(rand.NewSource(seed)) }
+
+// VerifCloseReadersOnly releases the handle's descriptors without the
+// garbage collection that Stack.Close performs.
+func (st *Stack) VerifCloseReadersOnly() {
+	for _, r := range st.stack {
+		r.Close()
+	}
+	st.stack = nil
+}
